@@ -37,6 +37,12 @@ type Scenario interface {
 	Nontrivial(res *simrt.Result) bool
 }
 
+// Signer is implemented by scenarios whose distinct cases are not distinguished by the
+// context-switch signature (single-threaded histories x fault placements).
+type Signer interface {
+	Signature(res *simrt.Result) string
+}
+
 // Property binds an id to its scenario generator.
 type Property struct {
 	ID  string
